@@ -142,6 +142,14 @@ def lean_prove(prop_mod, extra_targets=("driver",), leanchecker=False):
         return total
     t0 = time.time()
     r = ProofResult()
+    if prop_mod == "AscentVerif.Props.TieD":
+        # tie D: the table-shaped Rust code is re-translated from the repository's working tree on every run; the theorems of Props/TieD.lean
+        # state that the regenerated definitions equal the hand-written model (a changed match arm breaks a proof)
+        rc, out = run([sys.executable, os.path.join(VERIF, "tools", "rs2lean.py"), "--repo", repo_dir(), "--out", os.path.join(LEAN, "AscentVerif", "Generated")], cwd=VERIF, timeout=300)
+        r.log += out
+        if rc != 0:
+            r.ok = False
+            r.problems.append("tie D: rs2lean could not translate the current source (outside the supported fragment?): " + " | ".join(out.strip().splitlines()[-3:]))
     if not os.path.exists(os.path.join(LEAN, *prop_mod.split(".")) + ".lean"):
         r.ok = False
         r.problems.append(f"property module {prop_mod} is missing")
